@@ -133,6 +133,15 @@ def Analysis.kind : Analysis → Kind
 def Analysis.s : Analysis → GQ
   | .dc => 0 | .lap s => s | .ivp s => s | .ac w => GQ.j * w
 
+/-- e^{j·phi} for the phases whose phasor stays Gaussian rational -/
+def phaseFactor (ph : String) : Option GQ :=
+  let p := if ph.startsWith "{" && ph.endsWith "}" then ((ph.drop 1).dropEnd 1).toString else ph
+  if p = "0" then some 1
+  else if p = "pi/2" then some GQ.j
+  else if p = "-pi/2" then some (-GQ.j)
+  else if p = "pi" || p = "-pi" then some (-1)
+  else none
+
 /-- value of an independent source in the analysis domain, from its raw arguments -/
 def srcValue (an : Analysis) (args : List String) : Except String GQ :=
   let val (s : String) : Except String GQ :=
@@ -149,8 +158,9 @@ def srcValue (an : Analysis) (args : List String) : Except String GQ :=
   | .lap _, ["delta", v] => val v            -- an impulse v·δ(t): transform v
   | .ivp _, ["delta", v] => val v
   | .ac _, ["ac", v] => val v
-  | .ac _, ["ac", v, "0"] => val v
-  | .ac _, ["ac", v, "0", _] => val v
+  -- `ac V phi [omega]` is V·cos(ωt + phi) (doc/netlists.rst), phasor V·e^{j·phi}; quarter turns keep it Gaussian rational
+  | .ac _, ["ac", v, ph] => do let x ← val v; match phaseFactor ph with | some f => pure (x * f) | none => .error s!"unsupported:phase:{ph}"
+  | .ac _, ["ac", v, ph, _] => do let x ← val v; match phaseFactor ph with | some f => pure (x * f) | none => .error s!"unsupported:phase:{ph}"
   | _, _ => .error s!"unsupported:source:{args}"
 
 /-! ### elaboration -/
